@@ -167,6 +167,9 @@ EXTERN_EXC_ALIASES = {
     "anyio.BrokenResourceError": "BrokenResourceError",
     "anyio.WouldBlock": "WouldBlock",
     "json.JSONDecodeError": "JSONDecodeError",
+    "orjson.JSONDecodeError": "JSONDecodeError",        # subclass of json.JSONDecodeError
+    "orjson.JSONEncodeError": "TypeError",              # subclass of TypeError
+    "json.decoder.JSONDecodeError": "JSONDecodeError",
     "pydantic.ValidationError": "PydanticValidationError",
     "httpx.HTTPError": "HTTPError",
     "httpx.ConnectError": "ConnectError",
